@@ -14,12 +14,14 @@
 (* allowed outcomes); the invariants are the judges:                        *)
 (*   - remove(ns, nm) where some stored model matches only one of the keys  *)
 (*   - replace(m) where a stored model other than (m.ns, m.nm) clashes      *)
-(*   - whether an attempted modification that changes nothing (rejected     *)
-(*     add, remove of an absent model) drops the deployed evaluators        *)
+(*   - whether a remove that finds nothing to remove (it succeeds, and      *)
+(*     changes nothing) drops the deployed evaluators; a REFUSED add or     *)
+(*     replace has failed, is no modification, and keeps them               *)
 (***************************************************************************)
 EXTENDS Naturals, Sequences, FiniteSets
 
-CONSTANT Big            \* FALSE: the alphabet of C17; TRUE: a larger one (thorough)
+CONSTANT Big,           \* FALSE: the alphabet of C17; TRUE: a larger one (thorough)
+         Wide           \* TRUE: ten more models with keys of their own (trace validation only: many models stored at once)
 
 M(id, ns, nm, b) == [id |-> id, ns |-> ns, nm |-> nm, builds |-> b]
 
@@ -34,109 +36,19 @@ SmallModels == { M("A", "ns1", "n1", TRUE),  M("A2", "ns1", "n1", TRUE),
 BigModels   == SmallModels \cup
                { M("F", "ns2", "n2", TRUE),  M("G", "ns3", "n1", FALSE),
                  M("H", "ns4", "n3", TRUE) }
-Models == IF Big THEN BigModels ELSE SmallModels
+\* W1 .. W10: pairwise disjoint keys, disjoint from the others; W4 and W9 fail to build
+WideModels  == { M("W1", "ns5", "n5", TRUE),   M("W2", "ns6", "n6", TRUE),   M("W3", "ns7", "n7", TRUE),  M("W4", "ns8", "n8", FALSE),
+                 M("W5", "ns9", "n9", TRUE),   M("W6", "ns10", "n10", TRUE), M("W7", "ns11", "n11", TRUE), M("W8", "ns12", "n12", TRUE),
+                 M("W9", "ns13", "n13", FALSE), M("W10", "ns14", "n14", TRUE) }
+Models == (IF Big THEN BigModels ELSE SmallModels) \cup (IF Wide THEN WideModels ELSE {})
 
-Namespaces == {m.ns : m \in Models}
-Names      == {m.nm : m \in Models}
 
 VARIABLES defs, byNs, byNm, evals, res, fresh
+
 vars == <<defs, byNs, byNm, evals, res, fresh>>
 
-NsOf(S)  == {m.ns : m \in S}
-NmOf(S)  == {m.nm : m \in S}
-Built(S) == {m.nm : m \in {x \in S : x.builds}}
-
-TypeOK == /\ defs \subseteq Models /\ byNs \subseteq Namespaces /\ byNm \subseteq Names
-          /\ evals \subseteq Names /\ res \in {"ok", "err"} /\ fresh \in BOOLEAN
-
-Init == /\ defs = {} /\ byNs = {} /\ byNm = {} /\ evals = {} /\ res = "ok" /\ fresh = FALSE
-
-Clash(m, S) == {d \in S : d.ns = m.ns \/ d.nm = m.nm}
-
-\* An attempted modification that changed nothing may keep or drop the evaluators.
-KeepOrDrop == evals' \in {evals, {}}
-
-AddOk(m) ==
-  /\ Clash(m, defs) = {}
-  /\ defs' = defs \cup {m}
-  /\ byNs' = byNs \cup {m.ns} /\ byNm' = byNm \cup {m.nm}
-  /\ evals' = {} /\ fresh' = FALSE /\ res' = "ok"
-
-AddRejected(m) ==
-  /\ Clash(m, defs) # {}
-  /\ UNCHANGED <<defs, byNs, byNm, fresh>>
-  /\ KeepOrDrop /\ res' = "err"
-
-Add(m) == AddOk(m) \/ AddRejected(m)
-
-Exact(ns, nm)   == {d \in defs : d.ns = ns /\ d.nm = nm}
-Partial(ns, nm) == {d \in defs : (d.ns = ns) # (d.nm = nm)}
-
-\* remove(ns, nm): the model stored under exactly these keys goes, and with it
-\* both reservations.  Models matching only one of the keys may go too (the
-\* code matches on either key) - but then their reservations go with them.
-Remove(ns, nm) ==
-  \E gone \in SUBSET Partial(ns, nm) :
-    /\ defs' = defs \ (Exact(ns, nm) \cup gone)
-    /\ byNs' = NsOf(defs') /\ byNm' = NmOf(defs')
-    /\ IF defs' = defs THEN KeepOrDrop /\ UNCHANGED fresh
-                       ELSE evals' = {} /\ fresh' = FALSE
-    /\ res' = "ok"
-
-\* replace(m): substitute the stored model of the same namespace and name.
-\* Without such a model it is an add.  Other clashing models are either
-\* evicted (what remove-then-add does) or make the call fail unchanged.
-ReplaceOk(m) ==
-  \E gone \in SUBSET (Clash(m, defs) \ Exact(m.ns, m.nm)) :
-    LET rest == defs \ (Exact(m.ns, m.nm) \cup gone) IN
-    /\ Clash(m, rest) = {}
-    /\ defs' = rest \cup {m}
-    /\ byNs' = NsOf(defs') /\ byNm' = NmOf(defs')
-    /\ evals' = {} /\ fresh' = FALSE /\ res' = "ok"
-
-ReplaceRejected(m) ==
-  /\ Clash(m, defs) \ Exact(m.ns, m.nm) # {}
-  /\ UNCHANGED <<defs, byNs, byNm, fresh>>
-  /\ KeepOrDrop /\ res' = "err"
-
-Replace(m) == ReplaceOk(m) \/ ReplaceRejected(m)
-
-Clear ==
-  /\ defs' = {} /\ byNs' = {} /\ byNm' = {} /\ evals' = {}
-  /\ fresh' = FALSE /\ res' = "ok"
-
-\* deploy: an evaluator for every stored model that builds; the others are skipped.
-Deploy ==
-  /\ evals' = Built(defs) /\ fresh' = TRUE /\ res' = "ok"
-  /\ UNCHANGED <<defs, byNs, byNm>>
-
-\* evaluate_invocable(model name, ...): possible iff the model is deployed.
-Evaluate(nm) ==
-  /\ res' = IF nm \in evals THEN "ok" ELSE "err"
-  /\ UNCHANGED <<defs, byNs, byNm, evals, fresh>>
-
-Next == \/ \E m \in Models : Add(m) \/ Replace(m)
-        \/ \E ns \in Namespaces, nm \in Names : Remove(ns, nm)
-        \/ Clear \/ Deploy
-        \/ \E nm \in Names : Evaluate(nm)
+\* the actions and the invariants: WorkspaceCore, over this alphabet
+INSTANCE WorkspaceCore
 
 Spec == Init /\ [][Next]_vars
-
-----------------------------------------------------------------------------
-(* Property C17 as state invariants *)
-
-IndexesAgree == byNs = NsOf(defs) /\ byNm = NmOf(defs)
-
-UniqueKeys == \A a, b \in defs : (a.ns = b.ns \/ a.nm = b.nm) => a = b
-
-\* evaluation is possible only for models present at the last deploy that
-\* built, and only while nothing has been modified since
-DeployedFresh == /\ evals # {} => fresh
-                 /\ evals \subseteq Built(defs)
-
-Inv == TypeOK /\ IndexesAgree /\ UniqueKeys /\ DeployedFresh
-
-\* addability is decided by the stored models, and the indexes say the same
-AddableIff == \A m \in Models :
-                (Clash(m, defs) = {}) <=> (m.ns \notin byNs /\ m.nm \notin byNm)
 =============================================================================
